@@ -174,15 +174,20 @@ def record_random(ctx: Ctx, ev, meta, n, alphabet, pid):
             w = [rnd.choice(pool) for _ in range(k)]
             return w
         nps = rnd.randint(0, 3)
-        names = rnd.sample(["P", "q", "Cn", "x-long-name", "ALTREP"], nps)
+        names = rnd.sample(["P", "q", "Cn", "x-long-name", "ALTREP", "ENCODING", "Charset"], nps)
         ps = []
         for nm in names:
-            if rnd.random() < 0.4:
+            if nm in ("ENCODING", "Charset"):
+                # parameters that announce a transfer encoding / character set to other parsers: the value text stays the value
+                ps.append({"k": L(nm), "list": False, "vals": [L(rnd.choice(["QUOTED-PRINTABLE", "quoted-printable", "8BIT", "BASE64", "latin-1", "utf-16"]))]})
+            elif rnd.random() < 0.4:
                 vals = [word(8) for _ in range(rnd.randint(2, 4))]
                 ps.append({"k": L(nm), "list": True, "vals": vals})
             else:
                 ps.append({"k": L(nm), "list": False, "vals": [word(20)]})
         c = {"ps": ps, "kind": rnd.choice(["text", "raw"]), "v": word(30)}
+        if any(S(p["k"]) in ("ENCODING", "Charset") for p in ps) and rnd.random() < 0.7:
+            c["v"] = L(rnd.choice(["1 + 1 =3D 2", "a=41b", "caf=C3=A9", "=", "soft=", "aGVsbG8="])) + c["v"][:6]
         if pid == "C08":
             # domain of C08: no DQUOTE / control characters in parameter values
             for p in ps:
